@@ -12,6 +12,7 @@ from .commons import (
     dump_xml_header,
     dump_xml_meta_odm,
     DATE_FMT_DEFAULT,
+    in_scale,
     xml2dict,
     decode_unit,
     Field,
@@ -265,7 +266,7 @@ def _dumps_kvn(data, **kwargs):
 
         extras = {
             "START_TIME": "{:{}}".format(data.start, DATE_FMT_DEFAULT),
-            "STOP_TIME": "{:{}}".format(data.stop.change_scale(scale), DATE_FMT_DEFAULT),
+            "STOP_TIME": "{:{}}".format(in_scale(data.stop, scale), DATE_FMT_DEFAULT),
             "INTERPOLATION": data.method.upper(),
         }
         if data.method != data.LINEAR:
@@ -280,7 +281,7 @@ def _dumps_kvn(data, **kwargs):
             orb = orb.copy(form="cartesian")
             text.append(
                 "{date:{dfmt}} {orb[0]:{fmt}} {orb[1]:{fmt}} {orb[2]:{fmt}} {orb[3]:{fmt}} {orb[4]:{fmt}} {orb[5]:{fmt}}".format(
-                    date=orb.date.change_scale(scale),
+                    date=in_scale(orb.date, scale),
                     orb=orb.base / units.km,
                     fmt=" 10f",
                     dfmt=DATE_FMT_DEFAULT,
@@ -295,7 +296,7 @@ def _dumps_kvn(data, **kwargs):
 
                 cov_text.append(
                     "EPOCH = {date:{dfmt}}".format(
-                        date=orb.date.change_scale(scale), dfmt=DATE_FMT_DEFAULT
+                        date=in_scale(orb.date, scale), dfmt=DATE_FMT_DEFAULT
                     )
                 )
 
@@ -336,7 +337,7 @@ def _dumps_xml(data, **kwargs):
 
         extras = {
             "START_TIME": data.start.strftime(DATE_FMT_DEFAULT),
-            "STOP_TIME": data.stop.change_scale(scale).strftime(DATE_FMT_DEFAULT),
+            "STOP_TIME": in_scale(data.stop, scale).strftime(DATE_FMT_DEFAULT),
             "INTERPOLATION": data.method.upper(),
         }
         if data.method != data.LINEAR:
@@ -350,7 +351,7 @@ def _dumps_xml(data, **kwargs):
             el = el.copy(form="cartesian")
             statevector = ET.SubElement(data_tag, "stateVector")
             epoch = ET.SubElement(statevector, "EPOCH")
-            epoch.text = el.date.change_scale(scale).strftime(DATE_FMT_DEFAULT)
+            epoch.text = in_scale(el.date, scale).strftime(DATE_FMT_DEFAULT)
 
             elems = {
                 "X": "x",
@@ -372,7 +373,7 @@ def _dumps_xml(data, **kwargs):
                 cov = ET.SubElement(data_tag, "covarianceMatrix")
 
                 cov_date = ET.SubElement(cov, "EPOCH")
-                cov_date.text = el.date.change_scale(scale).strftime(DATE_FMT_DEFAULT)
+                cov_date.text = in_scale(el.date, scale).strftime(DATE_FMT_DEFAULT)
 
                 if el.cov.frame != el.frame:
                     frame = el.cov.frame
